@@ -1,13 +1,74 @@
 (* C03 — Decode depends only on the bytes, not on how a Reader delivers them.
-   Only statements, closed by [exact], with [Print Assumptions] beneath each. *)
+   Only statements, closed by [exact], with [Print Assumptions] beneath each.
+
+   Vocabulary (C03/Model.v): [run_io c (init c d sc f) ops] is the trace of the
+   model of ioDecReader (configuration c: ReaderBufferSize, MaxInitLen, ByteReader
+   or not) over the scripted reader that delivers the bytes d according to the
+   response script sc and then ends with f (io.EOF or an error); [run_spec (sinit d)
+   ops] is the trace of the specification reader (what bytesDecReader does) over d.
+   A trace element is the output bytes, the token and numread() after the
+   operation, or an error; a run stops at its first error. [respects] says that the
+   operation list follows the decReaderI protocol (Model.pre_ok), [abides] that the
+   script has fewer than maxConsecutiveEmptyReads zero-length reads in a row. *)
 From Coq Require Import List NArith ZArith Arith Lia Bool.
 From Verif Require Import Gen.Consts C03.Model C03.Proofs.
 Import ListNotations.
 
-(* non-vacuity: one byte at a time with zero-length reads in between, through a
-   3-byte buffer and unbuffered, with and without ReadByte: the same observations
-   as the specification reader on the delivered bytes, including a recorded value
-   and a json number that ends with the input *)
+(* Refinement, unbuffered mode (ReaderBufferSize <= 0), every operation family
+   (readn1/readnK/readx/readxb, readb, skip, skipWhitespace, jsonReadNum,
+   jsonReadAsisChars, jsonReadUntilDblQuote, start/stopRecording), every data,
+   every contract-abiding script, every MaxInitLen, with and without ReadByte:
+   same outputs, same tokens, same numread, same success/failure.
+   PARTIAL: the same statement for bufsize > 0 (fillbuf and the BUFIO loops) is
+   not proved; it is checked by correspondence and by the Example below only. *)
+Theorem C03_refines_partial : forall (c : cfg) (d : list N) (sc : list resp) (ops : list rop),
+  bufsize c = 0 -> abides sc -> respects false (sinit d) ops = true ->
+  map erase (run_io c (init c d sc KEof) ops) = run_spec (sinit d) ops.
+Proof. intros c d sc ops H. apply unbuf_refines. unfold bufio. rewrite H. reflexivity. Qed.
+Print Assumptions C03_refines_partial.
+
+(* Whatever the script (abiding or not) and however the reader ends (EOF or error),
+   the reader-fed run follows the specification run on the bytes delivered until it
+   stops with an error; in particular if those bytes are not enough for the
+   operations (the value is incomplete) the run reports an error, never success.
+   PARTIAL: unbuffered mode only. *)
+Theorem C03_truncated_partial : forall (c : cfg) (d : list N) (sc : list resp) (f : ek) (ops : list rop),
+  bufsize c = 0 -> f = KEof \/ f = KHard -> respects false (sinit d) ops = true ->
+  In TErr (run_spec (sinit d) ops) ->
+  exists k, In (EErr k) (run_io c (init c d sc f) ops).
+Proof.
+  intros c d sc f ops H Hf Hr Hin.
+  destruct (agree_truncated _ _ (unbuf_agree c d sc f ops ltac:(unfold bufio; rewrite H; reflexivity) Hf Hr) Hin) as [k [A _]].
+  exists k. exact A.
+Qed.
+Print Assumptions C03_truncated_partial.
+
+(* Without internal buffering the reader is never asked for more bytes than the
+   operations consumed: after every successful operation, bytes drawn = numread.
+   (Full: the statement is about bufsize = 0 only.) *)
+Theorem C03_no_overread : forall (c : cfg) (d : list N) (sc : list resp) (f : ek) (ops : list rop),
+  bufsize c = 0 -> f = KEof \/ f = KHard -> respects false (sinit d) ops = true ->
+  Forall no_overread_ev (run_io c (init c d sc f) ops).
+Proof. intros c d sc f ops H. apply unbuf_no_overread. unfold bufio. rewrite H. reflexivity. Qed.
+Print Assumptions C03_no_overread.
+
+(* The model's internal failure classes (out of fuel, unmodelled operation) are
+   never returned. PARTIAL: unbuffered mode only. *)
+Theorem C03_total_partial : forall (c : cfg) (d : list N) (sc : list resp) (f : ek) (ops : list rop) (k : ek),
+  bufsize c = 0 -> f = KEof \/ f = KHard -> respects false (sinit d) ops = true ->
+  In (EErr k) (run_io c (init c d sc f) ops) -> k <> KFuel /\ k <> KUnmodelled.
+Proof.
+  intros c d sc f ops k H Hf Hr Hin.
+  pose proof (agree_total _ _ (unbuf_agree c d sc f ops ltac:(unfold bufio; rewrite H; reflexivity) Hf Hr) k Hin) as B.
+  unfold bad in B. split; intros E; apply B; auto.
+Qed.
+Print Assumptions C03_total_partial.
+
+(* non-vacuity: one byte at a time with zero-length reads in between, through 1-,
+   3- and 64-byte buffers and unbuffered, with and without ReadByte: the premises
+   hold and the observations equal those of the specification reader on the
+   delivered bytes, including a recorded value and a json number that ends with
+   the input; the 8 operations all succeed *)
 Example C03_nonvacuous :
   let d := [34; 97; 92; 34; 32; 45; 49; 50; 51]%N in
   let sc := [mkresp 1 false; mkresp 0 false; mkresp 0 false; mkresp 2 false; mkresp 1 true;
@@ -23,3 +84,12 @@ Proof.
   intros b Hb r Hr. simpl in Hb, Hr.
   destruct Hb as [<-|[<-|[<-|[<-|[]]]]]; destruct Hr as [<-|[<-|[]]]; vm_compute; repeat split.
 Qed.
+
+(* non-vacuity of the truncation statement: the reader fails after 5 bytes, the operations need 8 *)
+Example C03_truncated_nonvacuous :
+  let d := [34; 97; 92; 34; 32]%N in
+  let ops := [Readn1; ReadAsis; SkipWs; Readx 4] in
+  respects false (sinit d) ops = true /\ In TErr (run_spec (sinit d) ops) /\
+  run_io (mkcfg 0 0 false) (init (mkcfg 0 0 false) d [mkresp 2 false; mkresp 0 false] KHard) ops
+  = [EOk [34%N] 0 1 1 1 1; EOk [97%N] 92 3 3 4 4; EOk [] 34 4 4 5 5; EErr KHard].
+Proof. cbv zeta. split; [vm_compute; reflexivity|]. split; [vm_compute; auto|]. vm_compute. reflexivity. Qed.
